@@ -37,14 +37,14 @@ META = {
     "gates": {
         "quick": {"evaluations": 200000, "ops": 70000, "notify_must_checked": 20000,
                   "notify_none_checked": 100000, "invalid_checked": 4000, "del_checked": 4000,
-                  "swap_checked": 10000, "chain_ops": 40000, "must_after_swap": 6000,
+                  "swap_checked": 10000, "chain_ops": 40000, "must_after_swap": 4000,
                   "must_after_del": 1500, "must_through_chain": 2500,
                   "coerced_assignments": 2500},
-        "thorough": {"evaluations": 4000000, "ops": 1400000, "notify_must_checked": 400000,
-                     "notify_none_checked": 2000000, "invalid_checked": 80000, "del_checked": 80000,
-                     "swap_checked": 200000, "chain_ops": 800000, "must_after_swap": 120000,
-                     "must_after_del": 30000, "must_through_chain": 50000,
-                     "coerced_assignments": 50000},
+        "thorough": {"evaluations": 4500000, "ops": 1650000, "notify_must_checked": 480000,
+                     "notify_none_checked": 2200000, "invalid_checked": 100000, "del_checked": 90000,
+                     "swap_checked": 220000, "chain_ops": 800000, "must_after_swap": 100000,
+                     "must_after_del": 38000, "must_through_chain": 55000,
+                     "coerced_assignments": 60000},
     },
     "assumptions": [
         "reading a plain (non-deferred) trait and obj.__dict__ are trusted observation channels",
@@ -360,7 +360,7 @@ class History:
                     d.local = ref_validate(m_terminal(d).tt, raw)
                     kw = {"p": d.ref.obj, d.attr: raw}
                     d.obj = cls(**kw)
-                elif lv == 0 and self.late_ref:
+                elif self.late_ref:
                     d.obj = cls()
                     d.obj.p = d.ref.obj
                 else:
@@ -665,8 +665,9 @@ class History:
             node = self.node(op[1])
             verdicts = self.structural_verdicts(node)
             before = m_read(node)
+            repointed = node.ref is not node.cands[op[2]]
             node.ref = node.cands[op[2]]
-            node.swapped = True
+            node.swapped = node.swapped or repointed
             try:
                 node.obj.p = node.ref.obj
             except Exception as e:  # noqa: BLE001
@@ -676,7 +677,8 @@ class History:
             self.check_state("swap", self.front, "stored-wrong", "read-wrong")
             self.check_notifications(verdicts, None, "%s.p = %s" % (node.label, node.ref.label))
             ctx.count("swap_checked")
-            outcome = "value-changed" if not same_value(before, m_read(node)) else "value-same"
+            outcome = ("same-object" if not repointed else
+                       "value-changed" if not same_value(before, m_read(node)) else "value-same")
         elif name == "del":
             node = self.node(op[1])
             verdicts = self.structural_verdicts(node)
@@ -700,7 +702,9 @@ class History:
             self.check_exc_channel(name)
             self.check_notifications({d.serial: ("none", "read") for d in self.defs}, None, "read")
             outcome = "read"
-        if name != "read" and not (name == "del" and outcome == "noop"):
+        # non-trivial: a value changed, a link was broken/restored, a delegate was
+        # really re-pointed, or an assignment was rejected
+        if outcome not in ("read", "noop", "same", "stored-delegate-same", "same-object"):
             ctx.sig(self.depth, tuple(self.levels), name,
                     op[1][0] if len(op) > 1 else "-", outcome, front_local,
                     tuple(d.local is not ABSENT for d in self.defs[1:]),
@@ -781,7 +785,9 @@ def report(ctx, h, hist, stop):
         r = hh.run(cand)
         return (r, list(hh.trace)) if (r is not None and r.key == stop.key) else None
     best = stop
-    if fires(ops) is not None:              # deterministic replay confirmed
+    # only the first records of a key are kept by the framework: shrink only those
+    seen = ctx.viol_per_key.get(stop.key, 0) if hasattr(ctx, "viol_per_key") else 0
+    if seen < 3 and fires(ops) is not None:     # deterministic replay confirmed
         i = len(ops) - 2
         while i >= 0:
             got = fires(ops[:i] + ops[i + 1:])
